@@ -1242,6 +1242,7 @@ def _make_pianoroll(
     pr_pitch = pr_pitch[idx]
     onset = onset[idx]
     duration = duration[idx]
+    pr_velocity = pr_velocity[idx]
 
     if min_time is None:
         min_time = 0 if min(onset) >= 0 else min(onset)
